@@ -44,6 +44,10 @@ def r12_1(ctx):
         ("PureExec", lambda: AObj("PureExec", {"reads": 0, "inlined": False, "name": "op_ADD_3", "isa_name": None, "ops": []}, label="self"), ["op_ADD_3", "DUP(op_ADD_3)", "DUP(op_ADD_3)"]),
         ("Parameter", lambda: AObj("Parameter", {"reads": 0, "name": "t", "isa_name": None, "value_type": mk_vt("pt", False, 32)}, label="self"), ["t", "DUP(t)", "DUP(t)"]),
         ("Parameter[external]", lambda: AObj("Parameter", {"reads": 0, "name": "bundle", "isa_name": None, "value_type": mk_vt("pt", False, 64, ("EXTERNAL",))}, label="self"), ["bundle", "bundle", "bundle"]),
+        # whatever further flags the parameter's type carries (a statement-expression valued by the parameter flags it in place)
+        ("Parameter[pure|hybrid value]", lambda: AObj("Parameter", {"reads": 0, "name": "t", "isa_name": None, "value_type": mk_vt("pt", False, 32, ("PURE", "HYBRID_LVAR"))}, label="self"), ["t", "DUP(t)", "DUP(t)"]),
+        ("Parameter[pure|const]", lambda: AObj("Parameter", {"reads": 0, "name": "t", "isa_name": None, "value_type": mk_vt("pt", False, 32, ("PURE", "CONST"))}, label="self"), ["t", "DUP(t)", "DUP(t)"]),
+        ("Parameter[pure|bool]", lambda: AObj("Parameter", {"reads": 0, "name": "t", "isa_name": None, "value_type": mk_vt("pt", False, 1, ("PURE", "BOOL"))}, label="self"), ["t", "DUP(t)", "DUP(t)"]),
         ("LocalVar", lambda: AObj("LocalVar", {"reads": 0, "name": "x", "isa_name": None}, label="self"), ['VARL("x")'] * 3),
         ("LetVar[inlined]", lambda: AObj("Number", {"reads": 0, "inlined": True, "value": 5, "value_type": mk_vt("t", True, 32)}, label="self"), ["SN(32, 5)"] * 3),
         ("Register[R]", lambda: reg_obj("Rs", "R", idx), ["Rs", "DUP(Rs)", "DUP(Rs)"]),
@@ -248,3 +252,60 @@ def r12_7(ctx):
         outs = Interp(idx, call_hook=hook).explore(once)
         ok = all(o.kind == "return" for o in outs) and sorted(removed) == ["op_ASSIGN_hybrid_tmp_7", "op_INC_5", "seq_8"] and not box["d"]
         ctx.check(f"update_hybrid_ref[{order}] removes sequence, hybrid and temporary assignment", ok, "removes seq_8, op_INC_5, op_ASSIGN_hybrid_tmp_7 and the pending entry", f"removed {sorted(removed)}, pending {sorted(box['d'])}", fn_where(idx, fi))
+
+
+@rule("R12.8", "C12", "one node per operand name: the holder indexes every node by the name its look-ups use (get_name), so a repeated operand is the same node and shares its read counter", min_instances=8)
+def r12_8(ctx):
+    from sa.absint import OpaqueMethod
+
+    idx = get_index(ctx.env)
+    pt = idx.enum_table("PureType")
+
+    def hook(interp, callee, args, kwargs, text):
+        if isinstance(callee, OpaqueMethod):
+            if callee.attr == "get_name":
+                return "NAME"
+            if callee.attr in ("pure_var", "effect_var", "vm_id", "get_isa_name", "__str__"):
+                return "OTHER_" + callee.attr
+        return NotImplemented
+
+    def run(method, node):
+        box = {}
+
+        def once(i):
+            h = AObj("ILOpsHolder", {"read_ops": {}, "exec_ops": {}, "write_ops": {}, "let_ops": {}, "hybrid_effect_dict": {}, "op_count": 0}, label="holder")
+            box["h"] = h
+            return i.call_function(idx.func(f"ILOpsHolder.{method}"), [node()], self_obj=h)
+
+        outs = Interp(idx, call_hook=hook).explore(once)
+        h = box["h"]
+        keys = {d: sorted(h.fields[d].keys()) for d in ("read_ops", "exec_ops", "write_ops") if isinstance(h.fields.get(d), dict) and h.fields[d]}
+        return outs, keys
+
+    for member, dicts in (("GLOBAL", ["read_ops"]), ("LOCAL", ["read_ops"]), ("LET", ["read_ops"]), ("EXEC", ["exec_ops"])):
+        ctx.need(member in pt, f"PureType.{member} missing")
+        outs, keys = run("add_pure", lambda: AObj("Pure", {"type": EnumV("PureType", member, pt[member])}, label="p", opaque=True))
+        ctx.check(f"add_pure[{member}] index", keys == {d: ["NAME"] for d in dicts} and all(o.kind != "raise" for o in outs), str({d: ["NAME"] for d in dicts}), str(keys), fn_where(idx, idx.func("ILOpsHolder.add_pure")))
+    outs, keys = run("add_effect", lambda: AObj("Effect", {}, label="e", opaque=True))
+    ctx.check("add_effect index", keys == {"write_ops": ["NAME"]}, "{'write_ops': ['NAME']}", str(keys), fn_where(idx, idx.func("ILOpsHolder.add_effect")))
+    outs, keys = run("add_hybrid", lambda: AObj("Hybrid", {}, label="h", opaque=True))
+    ctx.check("add_hybrid index", keys == {"exec_ops": ["NAME"], "write_ops": ["NAME"]}, "{'exec_ops': ['NAME'], 'write_ops': ['NAME']}", str(keys), fn_where(idx, idx.func("ILOpsHolder.add_hybrid")))
+    # look-ups: by the plain name in every dictionary
+    for method in ("has_op", "get_op_by_name"):
+        fi = idx.func(f"ILOpsHolder.{method}")
+        for d in ("read_ops", "exec_ops", "write_ops"):
+            def once(i, d=d):
+                f = {"read_ops": {}, "exec_ops": {}, "write_ops": {}, "let_ops": {}}
+                f[d] = {"NAME": "node"}
+                return i.call_function(fi, ["NAME"], self_obj=AObj("ILOpsHolder", f, label="holder"))
+            outs = Interp(idx).explore(once)
+            got = [o.value if o.kind != "raise" else "RAISE" for o in outs]
+            exp = [True] if method == "has_op" else ["node"]
+            ctx.check(f"{method} finds an entry of {d} by its name", got == exp, str(exp), str(got), fn_where(idx, fi))
+
+
+@rule("R12.9", "C12", "every effect handed to a sequence is referenced by it (only Empty, which declares nothing, is dropped)", min_instances=20)
+def r12_9(ctx):
+    from .c05 import r05_2
+
+    r05_2(ctx)
